@@ -110,6 +110,28 @@ pub fn transcript_step(s: &mut Sess<LS, ()>, op: &Op, run: &Run) -> String {
             let pick = |k: usize| s.tracked[(op.int(0) as usize + k * 7) % n].tm.clone();
             let t = Tm::node("b", vec![], vec![(vec![], pick(0)), (vec![], Tm::node("b", vec![], vec![(vec![], pick(1)), (vec![], pick(2))]))]);
             let text = to_re::<LS>(&t, &mut s.nm).to_string();
+            // half of the time every slot gets a name that this thread has never spelled before (suffix q):
+            // the parser is then the first to intern it here
+            let text = if op.int(0) % 2 == 0 {
+                let mut out = String::new();
+                let mut in_slot = false;
+                for c in text.chars() {
+                    if in_slot && (c == ' ' || c == ')' || c == '(') {
+                        out.push('q');
+                        in_slot = false;
+                    }
+                    if c == '$' {
+                        in_slot = true;
+                    }
+                    out.push(c);
+                }
+                if in_slot {
+                    out.push('q');
+                }
+                out
+            } else {
+                text
+            };
             match RecExpr::<LS>::parse(&text) {
                 Ok(re) => format!("parse {text} -> {re:?}"),
                 Err(e) => format!("parse {text} -> error {e:?}"),
